@@ -134,6 +134,8 @@ LeafDefault(f) ==
       [] f.kind = "dict" /\ d.t = "dict" ->
             IF f.keyf.kind = "nofield" /\ f.valf.kind = "nofield" THEN Ok(d)
             ELSE ValidatePairs(f, d.kv, <<>>)
+      \* ChallengeField.__setdefault__: a text default is stored as its salted digest
+      [] f.kind = "challenge" /\ d.t = "str" -> Ok(DigestV(f.alg, d))
       [] OTHER -> Ok(d)
 
 \* Field.__setdefault__: a non-empty environment variable is validated and wins
@@ -447,6 +449,17 @@ ListOp(f, cur, op, path) ==
             IF op.i >= n THEN Res(FALSE, cur, Err("IndexError", path), {})
             ELSE LET r == SetValue(f.item, l[op.i + 1], op.k, op.v, Append(path, <<"#", op.i + 1>>)) IN
                  Res(r.ok, ListV([l EXCEPT ![op.i + 1] = r.cfg]), r.err, {})
+      [] op.m = "item_reset" ->
+            \* reset_value(cfg.<list>[i], k): no validation, a required field may become unset
+            IF op.i >= n THEN Res(FALSE, cur, Err("IndexError", path), {})
+            ELSE LET r == ResetValue(f.item, l[op.i + 1], <<>>, op.k) IN
+                 Res(r.ok, ListV([l EXCEPT ![op.i + 1] = r.cfg]), r.err, {})
+      [] op.m = "setitem_same" ->
+            \* lst[i] = lst[i]: the configuration object the list already holds is inserted again
+            \* and is held to the rule like any other inserted configuration
+            IF op.i >= n THEN Res(FALSE, cur, Err("IndexError", path), {})
+            ELSE LET r == NewItem(f.item, [t |-> "cfgobj", c |-> l[op.i + 1]], Append(path, <<"#", op.i + 1>>)) IN
+                 IF r.ok THEN Res(TRUE, cur, NoErr, {}) ELSE Res(FALSE, cur, r.err, {})
       [] op.m = "pop" ->
             IF n = 0 THEN Res(FALSE, cur, Err("IndexError", path), {})
             ELSE Res(TRUE, ListV(SubSeq(l, 1, n - 1)), NoErr, {})
